@@ -35,6 +35,7 @@ type Act struct {
 	Own    bool              `json:"own"`
 	N      int               `json:"n"`
 	Keep   int               `json:"keep"`
+	T1     string            `json:"t1"`
 }
 
 // Op is the identifying part of an operation as the specification emits it.
